@@ -190,8 +190,8 @@ func NewRect64Invalid(isValid bool) Rect64 {
 	return Rect64{
 		left:   math.MaxInt64,
 		top:    math.MaxInt64,
-		right:  math.MaxInt64,
-		bottom: math.MaxInt64,
+		right:  math.MinInt64,
+		bottom: math.MinInt64,
 	}
 }
 
